@@ -605,7 +605,6 @@ func (f *frame) loopEffects(li *loopInfo) *effects {
 	return e
 }
 
-
 // ---------------------------------------------------------------------------
 // closure values stored in struct fields: which function literals can a field hold?
 
